@@ -13,6 +13,7 @@ import json
 import math
 import re
 import struct
+import time
 
 from .. import core
 from .. import noderun as N
@@ -74,7 +75,7 @@ KF = {
     "C22-KF8": dict(targets=("python",), guards={"fdiv"}),
     "C22-KF9": dict(targets=("python",), no_ops=F32_ARITH),
     "C22-KF10": dict(targets=TARGETS, no_features={"dead_loops"}),
-    "C22-KF11": dict(targets=("native",), guards={"addr"}),
+    "C22-KF11": dict(targets=TARGETS, guards={"addr"}),
     "C22-KF12": dict(targets=TARGETS, guards={"ci"}),
     "C22-KF13": dict(targets=("native",), no_features={"unreachable"}),
     "C22-KF14": dict(targets=("python",), no_features={"nan_consts", "inf_consts"}),
@@ -354,7 +355,7 @@ def known_probe(op, args, target):
 
 
 def probe_groups():
-    """Ops grouped by signature, at most 8 per module."""
+    """Ops grouped by signature, at most 16 per module."""
     by = {}
     for op, (ins, outs) in sorted(R.SIG.items()):
         if ".load" in op or ".store" in op:
@@ -363,8 +364,8 @@ def probe_groups():
     groups = []
     for key in sorted(by):
         ops = by[key]
-        for i in range(0, len(ops), 8):
-            groups.append(ops[i : i + 8])
+        for i in range(0, len(ops), 16):
+            groups.append(ops[i : i + 16])
     return groups
 
 
@@ -471,10 +472,11 @@ MEM_OPS = sorted(op for op in R.SIG if ".load" in op or ".store" in op)
 
 
 def mem_probe_case(target, quick, oob):
-    """All loads and stores in one module; stores of boundary values at several addresses, then every load."""
+    """All loads and stores in one module; stores of boundary values at several addresses, then every load.
+    oob: 0 none, 1 addresses just past the end, 2 also addresses >= 2^31."""
     desc = probe_desc(MEM_OPS)
     pool = QUICK_POOL if quick else FULL_POOL
-    addrs = [0, 1, 3, 8, 17, 31, 65528, 65532] + ([65533, 65536, -1] if oob else [])
+    addrs = [0, 1, 3, 8, 17, 31, 65528, 65532] + ([65533, 65536] if oob >= 1 else []) + ([-1, -0x80000000] if oob >= 2 else [])
     calls = []
     for k, op in enumerate(MEM_OPS):
         if ".store" in op:
@@ -587,9 +589,11 @@ def classify(case, msg):
     if kind == "inst-exc" and h.get("exc") == "TypeError" and h.get("frame") == "wasm/wasm2ppci.py:gen_end_instruction" and _dead_loop(desc):
         return "C22-KF10"
     has_mem_access = _has_op(desc, lambda o: ".load" in o or ".store" in o)
-    if target == "native" and has_mem_access:
-        if ref == "trap:oob" and (kind == "no-trap" or (kind == "killed" and h.get("status") == "killed:SIGSEGV")):
+    if has_mem_access and ref == "trap:oob":
+        if target == "native" and (kind == "no-trap" or (kind == "killed" and h.get("status") == "killed:SIGSEGV")):
             return "C22-KF11"
+        if target == "python" and kind == "no-trap" and (pr is None or _sgn(pr[1][0], 32) < 0 or not pr[0].startswith(("i", "f"))):
+            return "C22-KF11"  # python: only addresses >= 2^31 (negative as i32) escape the heap bounds assertion
     if _has_op(desc, lambda o: o == "call_indirect") and ref in ("trap:indirect", "trap:oob-table"):
         if kind in ("no-trap", "exc-vs-val") or (kind == "killed" and h.get("status") in ("killed:SIGSEGV", "killed:SIGILL", "killed:SIGBUS")):
             return "C22-KF12"
@@ -640,7 +644,23 @@ def _program_worker(arg):
         stats.excluded[kid] += 0
     twice_ok = "twice_br_table" not in flags.no_features
 
+    found = {}  # hash of failing case -> message (shrink cap: see below)
+    t_first = [None]
+
     def prop(case):
+        h = core.jhash(case)
+        if t_first[0] is not None and time.time() - t_first[0] > sizes["shrink_s"]:
+            # shrink budget used up: only cases already known to fail still fail, so that Hypothesis
+            # stops at the smallest failure found so far (and its final replay stays consistent)
+            return found.get(h)
+        msg = _prop(case)
+        if msg is not None and not (classify(case, msg) in open_ids):
+            found[h] = msg
+            if t_first[0] is None:
+                t_first[0] = time.time()
+        return msg
+
+    def _prop(case):
         pack = reference(case)
         wasm, info, plan, ref = pack
         msg = check_case(case, pack)
@@ -684,8 +704,8 @@ def _mem_worker(arg):
     preload()
     stats = Stats()
     fails = []
-    oob = not ("C22-KF11" in open_ids and target == "native")
-    if not oob:
+    oob = 2 if "C22-KF11" not in open_ids else (0 if target == "native" else 1)
+    if oob < 2:
         stats.excluded["C22-KF11"] += 1
     case = mem_probe_case(target, quick, oob)
     wasm, info, plan, ref = reference(case)
@@ -712,20 +732,30 @@ def _mem_worker(arg):
     return stats, fails
 
 
+def _job(arg):
+    kind, payload = arg
+    if kind == "probe":
+        return _probe_worker(payload)
+    if kind == "mem":
+        return _mem_worker(payload)
+    return _program_worker(payload)
+
+
 def run(ctx):
     preload()
     open_ids = core.open_finding_ids(PID)
     tier = "quick" if ctx.quick else "full"
-    jobs = []
-    for target in TARGETS:
-        for ops in probe_groups():
-            jobs.append((ops, target, tier, open_ids, None))
-    ctx.pmap(_probe_worker, jobs)
-    ctx.pmap(_mem_worker, [(t, ctx.quick, open_ids) for t in TARGETS])
-    sizes = dict(max_funcs=ctx.scale(3, 4), fuel=ctx.scale(30, 45), depth=ctx.scale(4, 5), budget_s=ctx.scale(45, 1500))
-    n = ctx.scale(6, 250)
-    ctx.pmap(_program_worker, [(subseed(ctx.seed, PID, w), n, TARGETS[w % 2], open_ids, sizes) for w in range(16)])
+    sizes = dict(max_funcs=ctx.scale(3, 4), fuel=ctx.scale(30, 45), depth=ctx.scale(4, 5), budget_s=ctx.scale(40, 1500),
+                 shrink_s=ctx.scale(40, 240))  # fmt: skip
+    n = ctx.scale(5, 250)
+    nprog = ctx.scale(12, 16)
+    # one job list, longest jobs first, so that 16 workers stay busy
+    jobs = [("program", (subseed(ctx.seed, PID, w), n, TARGETS[w % 2], open_ids, sizes)) for w in range(nprog)]
+    jobs += [("mem", (t, ctx.quick, open_ids)) for t in TARGETS]
+    pj = [("probe", (ops, target, tier, open_ids, None)) for target in TARGETS for ops in probe_groups()]
+    pj.sort(key=lambda j: -len(j[1][0]) * (2 if len(R.SIG[j[1][0][0]][0]) == 2 else 1))
+    jobs += pj
+    ctx.pmap(_job, jobs)
     ctx.extra["targets_covered"] = list(TARGETS)
     ctx.extra["probe_ops"] = sum(len(g) for g in probe_groups()) + len(MEM_OPS)
-    rej = {k: v for k, v in ctx.stats.discarded.items() if k.startswith("rejected:")}
-    ctx.extra["rejections_by_feature"] = rej
+    ctx.extra["rejections_by_feature"] = {k: v for k, v in ctx.stats.discarded.items() if k.startswith("rejected:")}
